@@ -1189,3 +1189,218 @@ Theorem spec_order_free_c09_structure_kept :
 Proof. exact Equiv_C0809.structure_kept_order_free. Qed.
 Print Assumptions spec_order_free_c09_structure_kept.
 
+
+(* ====================================================================================================================
+   The public algorithms that no other property module reaches (C15/ExtraModel.v, ExtraProofs.v, ExtraRefuted.v):
+   is_definite_collider, is_definite_noncollider, is_node_common_cause, set_nodes_as_latent_confounders, all_vstructures.
+   C15 demands invariance under renaming / insertion order, not a meaning.  The models TIED to the code by the correspondence are
+   the transcriptions of what the code does (def_collider, noncollider_asis, common_cause / common_cause_mixed_asis, latent_dg /
+   latent_mx, vstructs); their equivariance [rmap f] and order-freedom [gequiv] theorems are the C15 content (names
+   model_equivariant_..., asis_equivariant_..., ..._order_free_...).  DOCUMENTATION ONLY, not demanded by C15 and not checked against the
+   code: the textbook definitions (theorems ..._model_eq_spec, ..._meets_spec) and the witnesses ..._refuted where the code deviates from the
+   textbook.  extra_latent_asis_order_refuted is the one C15 defect: the unrepaired code depends on the insertion order.
+   ==================================================================================================================== *)
+From PG Require Import C15.ExtraModel C15.ExtraProofs C15.ExtraRefuted.
+
+(* ---- is_definite_collider ---- *)
+Theorem extra_def_collider_model_eq_spec :
+  forall g a b c, def_collider g a b c = true <-> def_collider_spec g a b c.
+Proof. exact def_collider_correct. Qed.
+Print Assumptions extra_def_collider_model_eq_spec.
+
+Theorem model_equivariant_extra_def_collider :
+  forall f : nat -> nat, injective f ->
+  forall g a b c, def_collider (rmap f g) (f a) (f b) (f c) = def_collider g a b c.
+Proof. exact def_collider_rmap. Qed.
+Print Assumptions model_equivariant_extra_def_collider.
+
+Theorem model_order_free_extra_def_collider :
+  forall g g' a b c, gequiv g g' -> def_collider g a b c = def_collider g' a b c.
+Proof. exact def_collider_order_free. Qed.
+Print Assumptions model_order_free_extra_def_collider.
+
+(* ---- is_definite_noncollider ---- *)
+Theorem extra_def_noncollider_model_eq_spec :
+  forall g a b c, def_noncollider g a b c = true <-> def_noncollider_spec g a b c.
+Proof. exact def_noncollider_correct. Qed.
+Print Assumptions extra_def_noncollider_model_eq_spec.
+
+Theorem model_equivariant_extra_def_noncollider :
+  forall f : nat -> nat, injective f ->
+  forall g a b c, def_noncollider (rmap f g) (f a) (f b) (f c) = def_noncollider g a b c.
+Proof. exact def_noncollider_rmap. Qed.
+Print Assumptions model_equivariant_extra_def_noncollider.
+
+Theorem model_order_free_extra_def_noncollider :
+  forall g g' a b c, gequiv g g' -> def_noncollider g a b c = def_noncollider g' a b c.
+Proof. exact def_noncollider_order_free. Qed.
+Print Assumptions model_order_free_extra_def_noncollider.
+
+(* the transcription of the current code: equivariant, equal to the definition on paths whose marks at the middle node are not
+   one arrowhead and one circle, and refuted on 0 o-> 1 o-o 2 *)
+Theorem asis_equivariant_extra_noncollider :
+  forall f : nat -> nat, injective f ->
+  forall g a b c, noncollider_asis (rmap f g) (f a) (f b) (f c) = noncollider_asis g a b c.
+Proof. exact noncollider_asis_rmap. Qed.
+Print Assumptions asis_equivariant_extra_noncollider.
+
+Theorem extra_noncollider_asis_agrees_partial :
+  forall g a b c, adjacent g a b = true -> adjacent g c b = true ->
+  andb (into g a b) (has_c g a b) = false -> andb (into g c b) (has_c g c b) = false ->
+  andb (into g a b) (has_c g c b) = false -> andb (has_c g a b) (into g c b) = false ->
+  noncollider_asis g a b c = def_noncollider g a b c.
+Proof. exact noncollider_asis_agrees. Qed.
+Print Assumptions extra_noncollider_asis_agrees_partial.
+
+Theorem extra_noncollider_asis_refuted : exists g a b c,
+  adjacent g a b = true /\ adjacent g c b = true /\ a <> c /\
+  noncollider_asis g a b c = true /\ ~ def_noncollider_spec g a b c.
+Proof. exact noncollider_asis_refuted. Qed.
+Print Assumptions extra_noncollider_asis_refuted.
+
+(* ---- is_node_common_cause ---- *)
+Theorem extra_common_cause_model_eq_spec :
+  forall g v excl, common_cause g v excl = true <-> common_cause_spec g v excl.
+Proof. exact common_cause_correct. Qed.
+Print Assumptions extra_common_cause_model_eq_spec.
+
+Theorem model_equivariant_extra_common_cause :
+  forall f : nat -> nat, injective f ->
+  forall g v excl, common_cause (rmap f g) (f v) (map f excl) = common_cause g v excl.
+Proof. exact common_cause_rmap. Qed.
+Print Assumptions model_equivariant_extra_common_cause.
+
+Theorem model_order_free_extra_common_cause :
+  forall g g' v excl excl', gequiv g g' -> (forall a, In a excl <-> In a excl') ->
+  common_cause g v excl = common_cause g' v excl'.
+Proof. exact common_cause_order_free. Qed.
+Print Assumptions model_order_free_extra_common_cause.
+
+Theorem extra_common_cause_mixed_asis_refuted : exists g v,
+  common_cause_mixed_asis g v nil = true /\ ~ common_cause_spec g v nil.
+Proof. exact common_cause_mixed_asis_refuted. Qed.
+Print Assumptions extra_common_cause_mixed_asis_refuted.
+
+(* ---- set_nodes_as_latent_confounders ---- *)
+Theorem extra_latent_graph_meets_spec :
+  forall g nodes, latent_spec g nodes (latent_graph g nodes).
+Proof. exact latent_graph_correct. Qed.
+Print Assumptions extra_latent_graph_meets_spec.
+
+Theorem extra_latent_model_eq_spec : forall g nodes,
+  (forall r, latent_model g nodes = Some r -> latent_spec g nodes r /\ forall l, In l nodes -> common_cause_spec g l nodes) /\
+  (latent_model g nodes = None <-> exists l, In l nodes /\ ~ common_cause_spec g l nodes).
+Proof. exact latent_model_correct. Qed.
+Print Assumptions extra_latent_model_eq_spec.
+
+Theorem model_equivariant_extra_latent :
+  forall f : nat -> nat, injective f ->
+  forall g nodes, latent_model (rmap f g) (map f nodes) = option_map (rmap f) (latent_model g nodes).
+Proof. exact latent_model_rmap. Qed.
+Print Assumptions model_equivariant_extra_latent.
+
+Theorem model_order_free_extra_latent_ok :
+  forall g g' nodes nodes', gequiv g g' -> (forall a, In a nodes <-> In a nodes') ->
+  latent_ok g nodes = latent_ok g' nodes'.
+Proof. exact latent_ok_order_free. Qed.
+Print Assumptions model_order_free_extra_latent_ok.
+
+Theorem model_order_free_extra_latent_graph :
+  forall g g' nodes nodes', gequiv g g' -> (forall a, In a nodes <-> In a nodes') ->
+  gequiv (latent_graph g nodes) (latent_graph g' nodes').
+Proof. exact latent_graph_order_free. Qed.
+Print Assumptions model_order_free_extra_latent_graph.
+
+Theorem spec_order_free_extra_latent :
+  forall g g' nodes nodes' r r', gequiv g g' -> (forall a, In a nodes <-> In a nodes') ->
+  latent_spec g nodes r -> latent_spec g' nodes' r' -> gequiv r r'.
+Proof. exact latent_spec_gequiv. Qed.
+Print Assumptions spec_order_free_extra_latent.
+
+Theorem extra_latent_asis_order_refuted : exists g g' nodes r r',
+  gequiv g g' /\ latent_asis g nodes = Some r /\ latent_asis g' nodes = Some r' /\
+  has_b r 1 3 = false /\ has_b r' 1 3 = true.
+Proof. exact latent_asis_order_refuted. Qed.
+Print Assumptions extra_latent_asis_order_refuted.
+
+Theorem extra_latent_asis_not_definition_refuted : exists g nodes r,
+  latent_asis g nodes = Some r /\ has_b r 1 3 = false /\ has_b (latent_graph g nodes) 1 3 = true.
+Proof. exact latent_asis_not_definition_refuted. Qed.
+Print Assumptions extra_latent_asis_not_definition_refuted.
+
+Theorem extra_latent_asis_readds_latent_refuted : exists g nodes r l,
+  latent_asis g nodes = Some r /\ In l nodes /\ In l (V r).
+Proof. exact latent_asis_readds_latent_refuted. Qed.
+Print Assumptions extra_latent_asis_readds_latent_refuted.
+
+(* ---- all_vstructures ---- *)
+Theorem extra_vstructs_model_eq_spec :
+  forall g a c b, In (a, c, b) (vstructs g) <-> vstruct_spec g a c b.
+Proof. exact vstructs_correct. Qed.
+Print Assumptions extra_vstructs_model_eq_spec.
+
+Theorem extra_vstruct_edges_model_eq_spec :
+  forall g a c, In (a, c) (vstruct_edges g) <-> exists b, vstruct_spec g a c b.
+Proof. exact vstruct_edges_correct. Qed.
+Print Assumptions extra_vstruct_edges_model_eq_spec.
+
+Theorem model_equivariant_extra_vstructs :
+  forall f : nat -> nat, injective f -> forall g, vstructs (rmap f g) = map (tmap f) (vstructs g).
+Proof. exact vstructs_rmap. Qed.
+Print Assumptions model_equivariant_extra_vstructs.
+
+Theorem model_equivariant_extra_vstruct_edges :
+  forall f : nat -> nat, injective f -> forall g, vstruct_edges (rmap f g) = pmap f (vstruct_edges g).
+Proof. exact vstruct_edges_rmap. Qed.
+Print Assumptions model_equivariant_extra_vstruct_edges.
+
+Theorem model_order_free_extra_vstructs :
+  forall g g' a c b, gequiv g g' -> (In (a, c, b) (vstructs g) <-> In (a, c, b) (vstructs g')).
+Proof. exact vstructs_order_free. Qed.
+Print Assumptions model_order_free_extra_vstructs.
+
+(* ---- the models TIED to the code by the correspondence (transcriptions of what the code does; for
+        set_nodes_as_latent_confounders: of the code after the order-independence repair fixes/C15-latent-confounders.patch).
+        is_definite_collider and all_vstructures: the tied model is the definition (above). ---- *)
+Theorem asis_order_free_extra_noncollider :
+  forall g g' a b c, gequiv g g' -> noncollider_asis g a b c = noncollider_asis g' a b c.
+Proof. exact noncollider_asis_order_free. Qed.
+Print Assumptions asis_order_free_extra_noncollider.
+
+(* is_node_common_cause on a mixed-edge class (successors = descendants there) *)
+Theorem asis_equivariant_extra_common_cause_mixed :
+  forall f : nat -> nat, injective f ->
+  forall g v excl, common_cause_mixed_asis (rmap f g) (f v) (map f excl) = common_cause_mixed_asis g v excl.
+Proof. exact common_cause_mixed_asis_rmap. Qed.
+Print Assumptions asis_equivariant_extra_common_cause_mixed.
+
+Theorem asis_order_free_extra_common_cause_mixed :
+  forall g g' v excl excl', gequiv g g' -> In v (V g) -> (forall a, In a excl <-> In a excl') ->
+  common_cause_mixed_asis g v excl = common_cause_mixed_asis g' v excl'.
+Proof. exact common_cause_mixed_asis_order_free. Qed.
+Print Assumptions asis_order_free_extra_common_cause_mixed.
+
+(* set_nodes_as_latent_confounders as coded after the repair: on a DiGraph (children / parents) and on an ADMG (descendants / ancestors) *)
+Theorem asis_equivariant_extra_latent_digraph :
+  forall f : nat -> nat, injective f ->
+  forall g nodes, latent_dg (rmap f g) (map f nodes) = option_map (rmap f) (latent_dg g nodes).
+Proof. exact latent_dg_rmap. Qed.
+Print Assumptions asis_equivariant_extra_latent_digraph.
+
+Theorem asis_equivariant_extra_latent_admg :
+  forall f : nat -> nat, injective f ->
+  forall g nodes, latent_mx (rmap f g) (map f nodes) = option_map (rmap f) (latent_mx g nodes).
+Proof. exact latent_mx_rmap. Qed.
+Print Assumptions asis_equivariant_extra_latent_admg.
+
+Theorem asis_order_free_extra_latent_digraph :
+  forall g g' nodes nodes', gequiv g g' -> (forall a, In a nodes <-> In a nodes') ->
+  opt_gequiv (latent_dg g nodes) (latent_dg g' nodes').
+Proof. exact latent_dg_order_free. Qed.
+Print Assumptions asis_order_free_extra_latent_digraph.
+
+Theorem asis_order_free_extra_latent_admg :
+  forall g g' nodes nodes', gequiv g g' -> (forall a, In a nodes <-> In a nodes') -> incl nodes (V g) ->
+  opt_gequiv (latent_mx g nodes) (latent_mx g' nodes').
+Proof. exact latent_mx_order_free. Qed.
+Print Assumptions asis_order_free_extra_latent_admg.
